@@ -192,8 +192,9 @@ def replay_case(case, idx, seed, tier, want_trace=True, want_covers=False, famil
                         tr_terms = [[list(w), c] for w, c in inp] + ([[[0] * N, -int(offset)]] if offset else [])
                         ex = export_outs(mpo, basis, alphas)
                         if ex is not None:
+                            uni_here = uniform and (not offset or tot_charge == {0})
                             res["traces"].append({"id": f"{idx}/{fam}/{algo}/build", "n": N, "terms": tr_terms,
-                                                  "outs": ex[0], "qn": ex[1], "chg": chg, "uniform": bool(uniform)})
+                                                  "outs": ex[0], "qn": ex[1], "chg": chg, "uniform": bool(uni_here)})
                 # ---- adjacent-site swaps (in place), every sequence of length <= 2
                 if do_swaps and N >= 2 and p == (idx % 2):
                     seqs = [(i,) for i in range(N - 1)] + [(i, j) for i in range(N - 1) for j in range(N - 1)]
